@@ -114,7 +114,8 @@ class StackedObservations(Generic[TObs]):
             self.stacked_obs[:, -observation.shape[self.stack_dimension] :, ...] = observation
         else:
             self.stacked_obs[..., -observation.shape[self.stack_dimension] :] = observation
-        return self.stacked_obs
+        # Return a copy so that the caller never holds a reference to the internal window
+        return self.stacked_obs.copy()
 
     def update(
         self,
@@ -174,4 +175,5 @@ class StackedObservations(Generic[TObs]):
             self.stacked_obs[:, shift:, ...] = observations
         else:
             self.stacked_obs[..., shift:] = observations
-        return self.stacked_obs, infos
+        # Return a copy so that the caller never holds a reference to the internal window
+        return self.stacked_obs.copy(), infos
